@@ -9,6 +9,13 @@ import vlib, hashcheck
 
 HASH_PROPS = {
     # pid: (monitor prefixes that decide this property, reject %, Lean module, theorems)
+    "C06": (("C06-", "C08-"), 8, "IsalVerif.Props.C06",
+            ["IsalVerif.HashMB.C06_step", "IsalVerif.HashMB.C06_inflight_iff_lane",
+             "IsalVerif.HashMB.C06_flush_none_iff", "IsalVerif.HashMB.C06_status"]),
+    "C11": (("C11-",), 30, "IsalVerif.Props.C11",
+            ["IsalVerif.HashMB.C11_reject", "IsalVerif.HashMB.C11_unchanged", "IsalVerif.HashMB.C11_history",
+             "IsalVerif.HashMB.C11_nopoison", "IsalVerif.HashMB.C11_reject_code",
+             "IsalVerif.HashMB.C11_unfixed_poisons"]),
     "C01": (("C01-",), 0, "IsalVerif.Props.C01",
             ["IsalVerif.HashMB.C01", "IsalVerif.HashMB.C01_reuse", "IsalVerif.HashMB.C01_append",
              "IsalVerif.HashMB.C01_segmentation", "IsalVerif.HashMB.C01_is_standard",
@@ -35,7 +42,8 @@ def check_hash(pid, tier, replay=None):
         nops, maxlen, seeds = 2500, 6000, [chk.seed]
     else:
         nops, maxlen, seeds = 40000, 300000, [chk.seed * 100 + k for k in range(6)]
-    results = hashcheck.sweep(chk, drv, nops, maxlen, rej, seeds)
+    fams = hashcheck.FAMILIES + (hashcheck.PUB if pid in ('C11', 'C06') else [])
+    results = hashcheck.sweep(chk, drv, nops, maxlen, rej, seeds, families=fams)
     total_ops = 0
     hist = {}
     fam_ops = {}
@@ -97,7 +105,7 @@ def check_hash(pid, tier, replay=None):
                            "non-empty (op,flags,length-class) cells x families")
 
 
-CHECKS = {"C01": check_hash}
+CHECKS = {"C01": check_hash, "C06": check_hash, "C11": check_hash}
 
 
 def main():
